@@ -604,6 +604,18 @@ func slotMutations(tree any) []any {
 		}
 	}
 	walk(tree, nil)
+	get := func(root any, p path) any {
+		cur := root
+		for _, k := range p {
+			switch kk := k.(type) {
+			case string:
+				cur = cur.(map[string]any)[kk]
+			case int:
+				cur = cur.([]any)[kk]
+			}
+		}
+		return cur
+	}
 	set := func(root any, p path, v any, remove bool) any {
 		if len(p) == 0 {
 			return v
@@ -630,9 +642,16 @@ func slotMutations(tree any) []any {
 		}
 		return r
 	}
-	for _, p := range paths {
+	// long values in more bytes than characters (what an error message echoes or truncates)
+	wide := []any{strings.Repeat("漢", 25), strings.Repeat("\U0001F600", 20), strings.Repeat("é", 40) + "x"}
+	for pi, p := range paths {
 		for _, v := range sixKinds {
 			out = append(out, set(tree, p, v, false))
+		}
+		out = append(out, set(tree, p, wide[pi%len(wide)], false))
+		// an object gets a member whose name is empty
+		if cur, ok := get(tree, p).(map[string]any); ok && len(cur) > 0 {
+			out = append(out, set(tree, append(append(path{}, p...), ""), float64(1), false))
 		}
 		if len(p) > 0 {
 			if _, ok := p[len(p)-1].(string); ok {
